@@ -356,21 +356,23 @@ class SimPool:
             w.now = max(w.now, start_t)
             w.log('pool.dispatch', pool=self.id, batch=batch['id'], chunk=cno, worker=p._identity[0],
                   tasks=chunk)
-            aborted = False
             for ti in chunk:
                 batch['assign'][ti] = p._identity[0]
-                if aborted:
-                    # mapstar: the first exception aborts the rest of the chunk
-                    continue
-                ok, val, rec = self._exec_task(p, func, tasks[ti], star, batch['id'], ti)
+            # one message per chunk, as in the real pool: objects shared between the jobs of a chunk (the same
+            # array in every argument tuple) stay shared after unpickling in the worker
+            outs = self._exec_chunk(p, func, [tasks[ti] for ti in chunk], star, batch['id'], chunk)
+            failed = None
+            for ti, (ok, val, rec) in zip(chunk, outs):
                 batch['tasks'][ti] = rec
                 if ok:
                     results[ti] = (True, val)
                 else:
-                    aborted = True
-                    for tj in chunk:
-                        results[tj] = (False, val)
+                    failed = val
                 p.tasks_done += 1
+            if failed is not None:
+                # mapstar: the first exception aborts the rest of the chunk and is the chunk's result
+                for tj in chunk:
+                    results[tj] = (False, failed)
             dur = self._duration(p, len(chunk))
             p.free_at = start_t + dur
             completions.append((p.free_at, cno, chunk))
@@ -388,44 +390,53 @@ class SimPool:
               order=batch['order'])
         return results, batch['order']
 
-    def _exec_task(self, p, func, arg, star, bid, ti):
+    def _exec_chunk(self, p, func, args, star, bid, indices):
+        """Run the jobs of one chunk in worker p.  Returns [(ok, value, record)] for the jobs that ran."""
         w = self.w
-        payload = pickle.dumps((func, arg), protocol=pickle.HIGHEST_PROTOCOL)
-        rec = {'worker': p._identity[0], 'pid': p.pid, 'index': ti, 'batch': bid}
+        payload = pickle.dumps((func, args), protocol=pickle.HIGHEST_PROTOCOL)
+        recs = [{'worker': p._identity[0], 'pid': p.pid, 'index': ti, 'batch': bid} for ti in indices]
 
         def thunk():
-            f, a = pickle.loads(payload)
-            rec['args'] = a
-            w.cur_task = (bid, ti)
+            f, alist = pickle.loads(payload)
+            out = []
+            for rec, a, ti in zip(recs, alist, indices):
+                rec['args'] = a
+                w.cur_task = (bid, ti)
+                try:
+                    try:
+                        r = f(*a) if star else f(a)
+                        ok = True
+                    except Exception as e:   # transported to the parent like a real pool does
+                        _harness_guard(e)
+                        r, ok = e, False
+                finally:
+                    w.cur_task = None
+                out.append((ok, r))
+                if not ok:
+                    break
             try:
-                try:
-                    r = f(*a) if star else f(a)
-                    ok = True
-                except Exception as e:   # transported to the parent like a real pool does
-                    _harness_guard(e)
-                    r, ok = e, False
-                try:
-                    rb = pickle.dumps(r, protocol=pickle.HIGHEST_PROTOCOL)
-                except Exception as e:
-                    from multiprocessing.pool import MaybeEncodingError
-                    r, ok = MaybeEncodingError(e, r), False
-                    rb = pickle.dumps(r)
-                return ok, rb
-            finally:
-                w.cur_task = None
+                rb = pickle.dumps(out, protocol=pickle.HIGHEST_PROTOCOL)
+            except Exception as e:
+                from multiprocessing.pool import MaybeEncodingError
+                out = [(False, MaybeEncodingError(e, out[-1][1] if out else None))]
+                rb = pickle.dumps(out)
+            return rb
 
-        ok, rb = self._in_worker(p, thunk)
-        val = pickle.loads(rb)
-        if not ok:
-            try:
-                val._sim_transported = True
-            except Exception:
-                pass
-        rec['ok'] = ok
-        rec['result'] = val
-        w.log('pool.task', batch=bid, index=ti, worker=p._identity[0], ok=ok,
-              result=val if ok else repr(val)[:80])
-        return ok, val, rec
+        rb = self._in_worker(p, thunk)
+        vals = pickle.loads(rb)
+        res = []
+        for rec, (ok, val) in zip(recs, vals):
+            if not ok:
+                try:
+                    val._sim_transported = True
+                except Exception:
+                    pass
+            rec['ok'] = ok
+            rec['result'] = val
+            w.log('pool.task', batch=bid, index=rec['index'], worker=p._identity[0], ok=ok,
+                  result=val if ok else repr(val)[:80])
+            res.append((ok, val, rec))
+        return res
 
     @staticmethod
     def _first_failure(results, order):
